@@ -229,6 +229,7 @@ type lookupObs struct {
 	owner      int64
 	host       string
 	port       int
+	ownRead    bool // the call itself read the name index
 }
 
 type model struct {
@@ -388,11 +389,11 @@ func (m *model) onExpiredSet(id string) {
 	}
 }
 
-func (m *model) onLookup(name string, start int, mp *repos.HTTPDomainMapping, err error) {
+func (m *model) onLookup(name string, start int, mp *repos.HTTPDomainMapping, err error, ownRead bool) {
 	m.mu.Lock()
 	defer m.mu.Unlock()
 	m.seq++
-	o := lookupObs{name: name, start: start, end: m.seq}
+	o := lookupObs{name: name, start: start, end: m.seq, ownRead: ownRead}
 	if err == nil && mp != nil {
 		o.found, o.id, o.full, o.owner, o.host, o.port = true, mp.ID, mp.FullDomain, mp.ClientID, mp.TargetHost, mp.TargetPort
 	}
@@ -422,6 +423,20 @@ func (m *model) checkLookups(faulted bool) {
 		if r.owner != o.owner || o.host != targetHost(r.owner) || o.port != targetPort(r.owner) {
 			m.fail("lookup-returned-foreign-owner", fmt.Sprintf("LookupByDomain(%s) = %s client %d target %s:%d; its creator is client %d", o.name, o.id, o.owner, o.host, o.port, r.owner))
 			return
+		}
+		// a mapping Y of the same name that was claimed before the lookup began and stayed
+		// live until it ended: the index pointed to Y the whole time, nothing else may be returned
+		for _, y := range m.sorted() {
+			if y.name == o.name && y.id != o.id && y.createdSeq < o.start && (y.ownerDelStart == 0 || y.ownerDelStart > o.end) {
+				sym := "lookup-returned-superseded-mapping"
+				how := ""
+				if !o.ownRead {
+					sym = "lookup-served-from-an-earlier-callers-read/returned-superseded-mapping"
+					how = " (this call never read the name index itself: it was handed the result of a read another caller started before the re-claim)"
+				}
+				m.fail(sym, fmt.Sprintf("LookupByDomain(%s) began after %s of client %d had claimed the name and returned %s of client %d%s", o.name, y.id, y.owner, o.id, o.owner, how))
+				return
+			}
 		}
 		if r.ownerDelDone > 0 && r.ownerDelDone < o.start {
 			m.fail("lookup-returned-deleted-mapping", fmt.Sprintf("LookupByDomain(%s) = %s after its owner's delete had returned", o.name, o.id))
@@ -504,7 +519,8 @@ func runCase(c Case, choose func(int, []string) int) result {
 	for i := range c.Tasks {
 		t := c.Tasks[i]
 		w.wg.Add(1)
-		w.g.Go(fmt.Sprintf("T%d", i+1), func() { defer w.wg.Done(); w.runTask(t) })
+		tname := fmt.Sprintf("T%d", i+1)
+		w.g.Go(tname, func() { defer w.wg.Done(); w.runTask(tname, t) })
 	}
 	r := result{}
 	log := w.g.Run(func(n int, desc []string) int {
@@ -572,7 +588,7 @@ func (w *world) resolve(ref string, own, found string) string {
 	return ""
 }
 
-func (w *world) runTask(t TaskC) {
+func (w *world) runTask(tname string, t TaskC) {
 	repo := w.repo(t.Node)
 	var own, found string
 	for _, op := range t.Ops {
@@ -600,8 +616,17 @@ func (w *world) runTask(t TaskC) {
 		case "lookup":
 			name := fullName(op.Name)
 			start := w.m.tick()
+			before := len(w.g.Log())
 			mp, err := repo.LookupByDomain(w.ctx, name)
-			w.m.onLookup(name, start, mp, err)
+			// did THIS call read the name index, or was it handed the result of a read that
+			// another caller had started earlier?
+			ownRead := false
+			for _, s := range w.g.Log()[before:] {
+				if s.Task == tname && s.Key == repos.HTTPDomainIndexKey(name) && strings.HasSuffix(s.Op, ".Get") {
+					ownRead = true
+				}
+			}
+			w.m.onLookup(name, start, mp, err, ownRead)
 			found = ""
 			if err == nil && mp != nil {
 				found = mp.ID
@@ -727,6 +752,9 @@ func (w *world) finalChecks(faulted bool, r *result) {
 // rootCause derives the root-cause class of a failing schedule from its step log, so that
 // a different mechanism with the same symptom is not absorbed by a listed finding.
 func rootCause(initIdx map[string]string, log []vkit.Step, symptom string, lost bool) string {
+	if strings.HasPrefix(symptom, "lookup-served-from-an-earlier-callers-read") {
+		return "lookup-result-shared-between-callers"
+	}
 	if symptom == "duplicate-mapping-id" {
 		// hybrid.Incr = Get then Set: another task touched the counter between the two
 		open := map[string]int{}
@@ -983,6 +1011,8 @@ type dfsProg struct {
 	fault    int    // n > 0: the n-th faultable operation returns a storage error
 	lost     bool   // ... after having been applied
 	failOn   string // "" = claim (index SetNX), "record-delete"
+	sameNode bool   // every task uses ONE repository instance (one process)
+	stallMs  int    // scheduler stall for this program (tasks that may wait for each other outside the store)
 }
 
 func cr(name, client int) Op    { return Op{Do: "create", Name: name, Client: client} }
@@ -1015,6 +1045,7 @@ var dfsProgs = []dfsProg{
 	{name: "delete(owner) [record delete fails, answer lost]||create(B)", init: []int{0, -1}, tasks: [][]Op{{del("init0", 0)}, {cr(0, 1)}}, fault: 1, lost: true, failOn: "record-delete"},
 	{name: "delete(owner) [record delete fails];delete(owner)||create(B);lookup", init: []int{0, -1}, tasks: [][]Op{{del("init0", 0), del("init0", 0)}, {cr(0, 1), lk(0)}}, fault: 1, failOn: "record-delete"},
 	{name: "delete(owner) [record delete fails]||create(B);delete(own)", init: []int{0, -1}, tasks: [][]Op{{del("init0", 0)}, {cr(0, 1), del("own", 1)}}, fault: 1, failOn: "record-delete"},
+	{name: "lookup||delete(owner)||create(B);lookup (one repository instance)", init: []int{0, -1}, tasks: [][]Op{{lk(0)}, {del("init0", 0)}, {cr(0, 1), lk(0)}}, sameNode: true, stallMs: 250},
 	{name: "delete(owner)||delete(owner)||create(B)", init: []int{0, -1}, tasks: [][]Op{{del("init0", 0)}, {del("init0", 0)}, {cr(0, 1)}}, thorough: true},
 }
 
@@ -1035,12 +1066,24 @@ func TestExhaustive(t *testing.T) {
 				if !fastLists && !vkit.Thorough() && len(prog.tasks[0])+len(prog.tasks[1]) > 2 {
 					continue // quick: list operations are scheduled for the one-operation-per-task programs only
 				}
+				if len(prog.tasks) > 2 && !fastLists {
+					continue // three tasks with list operations scheduled: tree too large
+				}
 				if prog.thorough && !fastLists {
 					continue // tree too large with list operations scheduled
 				}
 				c := Case{Shared: shared, FastLists: fastLists, AtomicIDs: !prog.gatedIDs, Init: prog.init, FailAt: prog.fault - 1, Lost: prog.lost, FailOn: prog.failOn}
 				for i, ops := range prog.tasks {
-					c.Tasks = append(c.Tasks, TaskC{Node: i % 2, Ops: ops})
+					n := i % 2
+					if prog.sameNode {
+						n = 0
+					}
+					c.Tasks = append(c.Tasks, TaskC{Node: n, Ops: ops})
+				}
+				if prog.stallMs > 0 {
+					stall = time.Duration(prog.stallMs) * time.Millisecond
+				} else {
+					stall = 2 * time.Second
 				}
 				d := &vkit.DFS{}
 				n := 0
